@@ -307,6 +307,23 @@ impl Scenario for C14 {
             let s = |b: &mut Builder, bit: u32| if pattern >> bit & 1 == 1 { Some(rand_string(b)) } else { None };
             let t = |b: &mut Builder, bit: u32| if pattern >> bit & 1 == 1 { Some(b.timestamp()) } else { None };
             let claims = RegSpec { iss: s(&mut b, 0), sub: s(&mut b, 1), aud: s(&mut b, 2), exp: t(&mut b, 3), nbf: t(&mut b, 4), iat: t(&mut b, 5), jti: s(&mut b, 6) };
+            // now and then an encode that fails half-way comes first on this thread
+            if b.rng.chance(1, 6) {
+                let (footer, filler) = (b.rng.bool(), *b.rng.pick(&[0usize, 1, 40, 5000]));
+                b.push(Step::Codec { case: CodecCase::FailingEncode { footer, filler } });
+            }
+            if b.rng.chance(1, 4) {
+                // the same claims flattened into an application payload with members of its own
+                let mut extra = serde_json::Map::new();
+                for i in 0..b.rng.below(4) {
+                    let v = b.json_value(2);
+                    extra.insert(format!("app{i}"), v);
+                }
+                if b.rng.chance(1, 3) {
+                    extra.insert("issuer".into(), serde_json::Value::from("not a registered claim"));
+                }
+                b.push(Step::Codec { case: CodecCase::Flatten { claims: claims.clone(), extra: serde_json::Value::Object(extra) } });
+            }
             b.push(Step::Codec { case: CodecCase::RegRoundtrip { claims } });
         }
         // foreign issuers
@@ -421,6 +438,10 @@ impl Scenario for C14 {
             b.push(Step::Codec { case: CodecCase::RegForeign { json: bad.to_string(), must_accept: false } });
         }
         for _ in 0..30 {
+            if b.rng.chance(1, 5) {
+                let (footer, filler) = (b.rng.bool(), *b.rng.pick(&[0usize, 3, 700]));
+                b.push(Step::Codec { case: CodecCase::FailingEncode { footer, filler } });
+            }
             let value = b.json_value(3);
             b.push(Step::Codec { case: CodecCase::JsonTransparent { value } });
         }
